@@ -57,9 +57,12 @@ def handle (j : Json) : R (List (String × Json)) := do
               ("info", Json.mkObj [("operator_history", Json.bool true), ("partition", strs all), ("steps_judged", jNat judged),
                                    ("tours", jNat s.tours.length), ("unassigned", jNat s.unassigned.length)])]
     if clustered then
+      -- the commute legs are judged against the routing data of the clustering profile (the generator names the first one)
+      let cr := Spec.commuteReplay p 0 s
       return [("model", Json.null),
-              ("oracle", Json.mkObj [("partition", Json.bool pa.isEmpty)]),
-              ("info", Json.mkObj [("clustered", Json.bool true), ("partition", strs pa),
+              ("oracle", Json.mkObj [("partition", Json.bool pa.isEmpty), ("commute", Json.bool cr.isEmpty)]),
+              ("info", Json.mkObj [("clustered", Json.bool true), ("partition", strs pa), ("commute", strs cr),
+                                   ("commute_legs", jNat ((s.tours.flatMap (fun t => t.stops.flatMap (·.activities))).filter (fun a => a.fwd.isSome || a.bwd.isSome)).length),
                                    ("tours", jNat s.tours.length), ("unassigned", jNat s.unassigned.length)])]
     return [("model", Json.null),
             ("oracle", Json.mkObj [("feasible", Json.bool f.isEmpty), ("partition", Json.bool pa.isEmpty),
